@@ -160,6 +160,14 @@ class P:
             if self.peek() == ";":
                 self.eat()
                 continue
+            if self.peek() == "return":
+                # early return: `return e;` — desugared below into the else-less `if` that guards it
+                self.eat()
+                e = None if self.peek() in (";", "}") else self.expr()
+                if self.peek() == ";":
+                    self.eat()
+                stmts.append(("return", e))
+                continue
             if self.peek() == "let":
                 self.eat()
                 if self.peek() == "mut":
@@ -191,7 +199,27 @@ class P:
             else:
                 raise Fail("unexpected token %r after expression" % self.peek())
         self.eat("}")
-        return ("block", stmts, tail)
+        return self.desugar_returns(stmts, tail)
+
+    @staticmethod
+    def desugar_returns(stmts, tail):
+        """`{ a; if c { b; return x; } d; y }`  ==>  `{ a; if c { b; x } else { d; y } }` (4th field: the block always returns)"""
+        returns = False
+        if stmts and stmts[-1][0] == "return" and tail is None:
+            tail = stmts[-1][1]
+            stmts = stmts[:-1]
+            returns = True
+        for i, st in enumerate(stmts):
+            if st[0] == "return":
+                raise Fail("statements after an unconditional `return`")
+            if st[0] == "expr" and st[1][0] == "if" and st[1][3] is None and len(st[1][2]) > 3 and st[1][2][3]:
+                rest = P.desugar_returns(stmts[i + 1:], tail)
+                c, a = st[1][1], st[1][2]
+                return ("block", stmts[:i], ("if", c, a, rest), returns or rest[3])
+        if tail is not None and tail[0] == "if" and tail[3] is not None:
+            both = len(tail[2]) > 3 and tail[2][3] and tail[3][0] == "block" and len(tail[3]) > 3 and tail[3][3]
+            returns = returns or bool(both)
+        return ("block", stmts, tail, returns)
 
     def skip_type(self):
         depth = 0
